@@ -46,6 +46,7 @@ package nsqd
 //@   nosafety "only position arithmetic is specified"
 //@   modifies *
 //@   ensures[ack] (d.readFileNum == old(d.nextReadFileNum) && d.readPos == old(d.nextReadPos)) || (d.readFileNum == d.writeFileNum && d.readPos == 0 && d.writePos == 0)
+//@   ensures[depth] d.depth == old(d.depth) - 1 || d.depth == 0
 //@   ensures[removes_only_left_segment] old(d.readFileNum) == old(d.nextReadFileNum) && (old(d.nextReadFileNum) < old(d.writeFileNum) || old(d.nextReadPos) < old(d.writePos))
 //@        ==> glog("fs.removed") == old(glog("fs.removed"))
 //@
